@@ -106,7 +106,8 @@ def patchOf (j : Json) : Patch :=
     combine := optOf (fld j "combine") combineOf,
     xfs := (arr j "xfs").map xfOf,
     policy := optOf (fld j "policy") policyOf,
-    mergeOrc := (arr j "mergeOrc").map vOf }
+    mergeOrc := (arr j "mergeOrc").map vOf,
+    applyOrc := (arr j "applyOrc").map vOf }
 
 def errJson : Option E → Json
   | none => .str ""
@@ -207,7 +208,19 @@ def tplOf (j : Json) : Tpl :=
       | _ => .ok,
     status := match fld j "status" with
       | .null => none
-      | s => some (vOf s) }
+      | s => some (vOf s),
+    cur := match fld j "cur" with
+      | .null => none
+      | c => some (vOf c) }
+
+/-- The simulated API server decodes a merge patch through float64: floats and integers beyond
+2^53 are not compared in the STORED object (they are, exactly, in the body that is sent). -/
+partial def maskNumbers : V → V
+  | .num i => if i ≥ 2 ^ 53 || i ≤ -(2 ^ 53) then .str "$num" else .num i
+  | .flt _ => .str "$num"
+  | .arr l => .arr (l.map maskNumbers)
+  | .obj m => .obj (m.map fun (k, v) => (k, maskNumbers v))
+  | v => v
 
 def wJson (w : Write) : Json :=
   Json.mkObj [("verb", .str w.verb), ("target", .str w.target)]
@@ -223,7 +236,8 @@ def runCompose (scn : Json) : Json × Bool × String :=
     ("synced", Json.arr (r.synced.map Json.bool).toArray),
     ("refs", Json.arr (r.refs.map fun (k, n) => Json.mkObj [("kind", .str k), ("name", .str n)]).toArray),
     ("writes", Json.arr (r.writes.map wJson).toArray),
-    ("bodies", Json.arr (r.bodies.map vJson).toArray)]
+    ("bodies", Json.arr (r.sent.map fun s => vJson s.body).toArray),
+    ("stored", Json.arr (r.stored.map fun o => vJson (maskNumbers ((o.get? "spec").getD .null))).toArray)]
   let ok := unrenderedNotWritten r
   (out, ok, if ok then "" else "C10:unrendered-applied")
 
